@@ -66,16 +66,21 @@ impl Write for WritableFile {
         #[cfg(feature = "verif-hooks")]
         crate::verif_hooks::yield_point("memory::flush");
         let mut handle = self.fs.write().unwrap();
-        let previous_file = handle.files.get(&self.destination);
+        // The file may have been removed (or replaced by a directory) while this handle was
+        // open; like data written to an unlinked file, the buffer then has nowhere to go.
+        // Publishing it anyway would create an entry without a parent directory, or turn a
+        // directory into a file.
+        let previous_file = match handle.files.get(&self.destination) {
+            Some(file) if file.file_type == VfsFileType::File => file,
+            _ => return Ok(()),
+        };
 
         let new_file = MemoryFile {
             file_type: VfsFileType::File,
             content: Arc::new(content),
-            created: previous_file
-                .map(|file| file.created)
-                .unwrap_or(SystemTime::now()),
+            created: previous_file.created,
             modified: Some(SystemTime::now()),
-            accessed: previous_file.map(|file| file.accessed).unwrap_or(None),
+            accessed: previous_file.accessed,
         };
 
         handle.files.insert(self.destination.clone(), new_file);
